@@ -3,7 +3,7 @@
 ENGINEX = "{build}/harness/enginex/enginex"
 
 
-def enginex(prop, qs=16, ts=16, qb=150, tb=1500):
+def enginex(prop, qs=16, ts=16, qb=300, tb=1800):
     return {
         "name": "enginex", "dir": "enginex", "variant": "verif",
         "cmd": [ENGINEX, "--prop", prop, "--tier", "{tier}", "--shard", "{shard}", "--nshards", "{nshards}",
